@@ -71,7 +71,18 @@ META = {
                 "stand-in is re-checked on every stage)",
                 "torch.autograd.functional.jacobian of the user system (NLS linearisation)",
                 "numpy dense reference (condensed QP) used for the optimality oracle and the error scales"],
-    "assumptions": ["Q_t symmetric positive definite (hypothesis of the optimality theorems)",
+    "assumptions": ["SCOPE (hlin): the optimality / nominal-independence / MPC=LQR theorems assume A(s*dt) = A(s), B(s*dt) = B(s) for the steps the "
+                    "backward pass reads (s+1 < T): LTI with any dt, LTV with dt = 1 (theorems hlin_lti, hlin_dt_one, lqr_optimal_ltv, "
+                    "mpc_linear_eq_lqr_ltv need no such hypothesis). On an indexed LTV with dt != 1 the real code linearises at t*dt but rolls "
+                    "out with clock +1 per step and is NOT optimal (T=4, dt=2: gradient 53, cost 45.4 vs 3.7); the property text does not "
+                    "mention dt — observation, the generators use dt = 1 for LTV. The model has dt : Nat.",
+                    "Q_t symmetric; the theorems need only Q_t PSD with PD input block (CostOK). For a NON-symmetric Q with positive quadratic "
+                    "form the code is not optimal (it uses Q tau as the gradient): read 'positive definite' as symmetric PD.",
+                    "batch sizes 1..3 (and the large batches of pass 4): the model is one batch item; batched = item-wise is decided by the "
+                    "harness only (every item vs reference, items vs the same item alone), there is no theorem about batching.",
+                    "independence of earlier calls: the model's only inter-call state is the clock, so history_independent & co. (Lemmas, Part 9) "
+                    "are true by construction; LQR.x_traj/u_traj, System.state/input, NLS._ref_* are covered by the history stream only.",
+                    "Q_t symmetric positive definite (hypothesis of the property's own optimality theorems)",
                     "LTV systems are solved with dt = 1 (set_refpoint(t*dt) indexes A_t; other dt make backward and "
                     "forward pass read different matrices: hypothesis `hlin` of the theorems)",
                     "MPC: single batch item (the code compares `cost < best` as a scalar)"],
@@ -216,6 +227,7 @@ def gen_lqr_case(rng, big=True, small=None, mpc=False):
     if dtype == "float32" and rng.random() < 0.5:
         case["defdt"] = "float64"                 # process-wide default dtype differs from the operands'
     case["tail"] = rng.random() < 0.3
+    case["errs"] = rng.random() < 0.25
     if case["sys"] == "ltvc":
         case["c1"] = "rand"
     if case["sys"] in ("lti", "lti_shared") and rng.random() < 0.4:
@@ -234,7 +246,7 @@ T_CLK = 7
 
 def neutral(c):
     """switch off the randomly drawn extras so that a corpus case varies exactly what it says it varies"""
-    c.update(qstyle=None, signpat=None, dup=False, subclass=None, defdt=None, tail=True)
+    c.update(qstyle=None, signpat=None, dup=False, subclass=None, defdt=None, tail=True, errs=True)
     return c
 
 
@@ -984,6 +996,30 @@ def _run_lqr_case(ctx: Ctx, case, lines, metas):
                                 metas.append((case, b, first[0][b], first[1][b], float(first[2][b]), K[b].detach().double().numpy().copy(),
                                               k[b].detach().double().numpy().copy(), refs[b], tl[b],
                                               None if un is None else un[b]))
+                        # ERROR BRANCHES (model: `lqrChecked`): a nominal with T±1 steps, a Q that is indefinite at t = 0 — does the
+                        # implementation raise exactly where the model says it does?
+                        if case.get("errs") and good and Bn <= 3:
+                            for kind_e in ("len+1", "len-1", "nonpd"):
+                                if kind_e == "len-1" and T < 2:
+                                    continue
+                                pe, ue = prob, None
+                                if kind_e == "nonpd":
+                                    pe = dict(prob, Q=prob["Q"].copy())
+                                    pe["Q"][:, 0] = -pe["Q"][:, 0]
+                                else:
+                                    m = T + 1 if kind_e == "len+1" else T - 1
+                                    ue = np.zeros((Bn, m, nc))
+                                raised = None
+                                try:
+                                    lqe = U.make_lqr(dict(case, qshape="full", qexpand=False), pe, system) if kind_e == "nonpd" else lq
+                                    lqe(x0, case["dt"], None if ue is None else torch.tensor(ue, dtype=dt_t))
+                                except Exception as e:
+                                    raised = type(e).__name__
+                                for b in range(Bn):     # the batched call raises iff some item's solve raises
+                                    lines.append(U.lqr_line(dict(case, qshape="full") if kind_e == "nonpd" else case, pe, b, ue,
+                                                            dt=1 if not isinstance(case["dt"], int) else case["dt"]))
+                                    metas.append(("err", case, kind_e, raised, b, Bn))
+                                ctx.count(f"lqr.errors.{kind_e}.{'raised' if raised else 'returned'}")
                         # MIXED-REGIME BATCH: every item against the same problem solved alone
                         if (case.get("mixed") or Bn > 3) and Bn > 1 and good:
                             for b in sample_items(Bn):
@@ -1040,7 +1076,21 @@ def _run_lqr_case(ctx: Ctx, case, lines, metas):
 
 
 def compare_lqr_model(ctx: Ctx, reps, metas):
-    for rep, (case, b, xi, ui, ci, Ki, ki, r, (tol_u, tol_x, _sg), ub) in zip(reps, metas):
+    err_acc = False
+    for rep, meta in zip(reps, metas):
+        if meta[0] == "err":
+            _, case, kind_e, raised, b, Bn_ = meta
+            st_, toks_ = common.parse_reply(rep)
+            model_raises = st_ == "err" and str(toks_).startswith("raises:")
+            if st_ == "err" and not model_raises:
+                raise common.InfraError(f"model error reply: {rep[:200]}")
+            err_acc = model_raises if b == 0 else (err_acc or model_raises)
+            if b == Bn_ - 1 and err_acc != (raised is not None):
+                ctx.disagree("errors", dict(case, focus=["error-branch", kind_e]),
+                             f"error branch {kind_e}: implementation {'raised ' + raised if raised else 'returned'}, model "
+                             f"{'raises for some batch item' if err_acc else 'returns for every batch item'}")
+            continue
+        (case, b, xi, ui, ci, Ki, ki, r, (tol_u, tol_x, _sg), ub) = meta
         ns, nc, T = case["ns"], case["nc"], case["T"]
         eps = eps_of(case)
         xm, um, cm, Km, km = U.parse_lqr_reply(rep, ns, nc, T)
